@@ -281,6 +281,41 @@ def readCiphertext {Key : Type} (c : Codec) (u : Uploaded Key) (pick : Nat → L
     (known : Bool) (offset : Nat) (size : Option Nat) : Except Err (List Bytes) :=
   (readEvents c u pick defaultMaxSeg known offset size).map chunksOf
 
+/-! ### several readers of one node (C04) -/
+
+/-- what one `Segmentation` still wants (`_offset`, `_size`) and what it has written so far -/
+structure ReaderState where
+  offset : Nat
+  size : Nat
+  out : Bytes
+  deriving DecidableEq, Repr
+
+/-- one firing of `Segmentation._got_segment` with a delivered segment: WrongSegmentError leaves the state
+    unchanged (the request is retried or the read fails — nothing is written), otherwise the trimmed
+    bytes are written and `_offset` / `_size` advance -/
+def ReaderState.deliver (st : ReaderState) (segStart : Nat) (segment : Bytes) : ReaderState :=
+  match gotSegment segStart segment st.offset st.size with
+  | none => st
+  | some d => { offset := st.offset + d.length, size := st.size - d.length, out := st.out ++ d }
+
+/-- `l` with `f` applied at index `i` -/
+def updateAt {α : Type} (l : List α) (i : Nat) (f : α → α) : List α :=
+  match l, i with
+  | [], _ => []
+  | x :: xs, 0 => f x :: xs
+  | x :: xs, i + 1 => x :: updateAt xs i f
+
+/-- one reader fed the segments `segnums` of a file with ciphertext `ct` and segment size `seg`, in that order -/
+def feed (ct : Bytes) (seg : Nat) (st : ReaderState) (segnums : List Nat) : ReaderState :=
+  segnums.foldl (fun st s => st.deliver (s * seg) ((ct.drop (s * seg)).take seg)) st
+
+/-- m readers under an arbitrary schedule: event `(i, s)` = reader `i` is handed segment `s` (by its own
+    request or because another reader's request made the node fetch it).  Pause / resume events change no
+    reader's `(offset, size, out)` and are therefore not represented; a stopped reader simply receives
+    no further events. -/
+def feedAll (ct : Bytes) (seg : Nat) (sts : List ReaderState) (events : List (Nat × Nat)) : List ReaderState :=
+  events.foldl (fun sts ev => updateAt sts ev.1 (fun st => st.deliver (ev.2 * seg) ((ct.drop (ev.2 * seg)).take seg))) sts
+
 /-- `ImmutableFileNode.read`: the ciphertext chunks pass through one `DecryptingConsumer` -/
 def read {Key : Type} (ks : Key → Nat → Block16) (c : Codec) (u : Uploaded Key) (pick : Nat → List Nat)
     (defaultMaxSeg : Nat) (known : Bool) (offset : Nat) (size : Option Nat) : Except Err Bytes :=
